@@ -453,6 +453,12 @@ func (c *Ctx) encPieces(fd *ast.FuncDecl, e ast.Expr, bind map[types.Object]stri
 				return v, true
 			}
 		}
+		// a field of the receiver of a descriptor method (c.prefix), bound from the descriptor's literal
+		if se, ok := x.(*ast.SelectorExpr); ok {
+			if v, ok := bind[info.ObjectOf(se.Sel)]; ok {
+				return v, true
+			}
+		}
 		// string(c) / byte(c) conversions of a constant
 		if call, ok := x.(*ast.CallExpr); ok && len(call.Args) == 1 {
 			if tv, ok := info.Types[call.Fun]; ok && tv.IsType() {
@@ -518,6 +524,54 @@ func (c *Ctx) encPieces(fd *ast.FuncDecl, e ast.Expr, bind map[types.Object]stri
 			if hfd := c.funcDecl(f); hfd != nil && hfd.Body != nil && hfd != fd && f.Name() != "EscapeIdent" && f.Name() != "Escape" {
 				hinfo := c.declPkg[hfd].TypesInfo
 				nb := map[types.Object]string{}
+				// a method of a descriptor held in a package-level variable (globalIdent.encodeName(name) with
+				// var globalIdent = identClass{prefix: "@"}): the string fields of the literal are bound, absent ones to ""
+				if se, ok := unparen(x.Fun).(*ast.SelectorExpr); ok && hfd.Recv != nil {
+					if rid, ok := unparen(se.X).(*ast.Ident); ok {
+						if rv, ok := info.ObjectOf(rid).(*types.Var); ok && rv.Pkg() != nil && rv.Parent() == rv.Pkg().Scope() {
+							if st, ok := rv.Type().Underlying().(*types.Struct); ok {
+								for i := 0; i < st.NumFields(); i++ {
+									if isPlainString(st.Field(i).Type()) {
+										nb[st.Field(i)] = ""
+									}
+								}
+								if ep := c.pkg(pkgENC); ep != nil {
+									for _, f := range ep.Syntax {
+										for _, d := range f.Decls {
+											gd, ok := d.(*ast.GenDecl)
+											if !ok || gd.Tok != token.VAR {
+												continue
+											}
+											for _, sp := range gd.Specs {
+												vs := sp.(*ast.ValueSpec)
+												for i, nm := range vs.Names {
+													if ep.TypesInfo.Defs[nm] != types.Object(rv) || i >= len(vs.Values) {
+														continue
+													}
+													lit := unparen(vs.Values[i])
+													if u, ok := lit.(*ast.UnaryExpr); ok && u.Op == token.AND {
+														lit = unparen(u.X)
+													}
+													if cl, ok := lit.(*ast.CompositeLit); ok {
+														for _, el := range cl.Elts {
+															if kv, ok := el.(*ast.KeyValueExpr); ok {
+																if kid, ok := kv.Key.(*ast.Ident); ok {
+																	if tv := ep.TypesInfo.Types[kv.Value]; tv.Value != nil && tv.Value.Kind() == constant.String {
+																		nb[ep.TypesInfo.ObjectOf(kid)] = constant.StringVal(tv.Value)
+																	}
+																}
+															}
+														}
+													}
+												}
+											}
+										}
+									}
+								}
+							}
+						}
+					}
+				}
 				k := 0
 				for _, fl := range hfd.Type.Params.List {
 					for _, nm := range fl.Names {
